@@ -239,17 +239,22 @@ def run(ctx: core.Ctx) -> core.Result:
         items.append((rq, ac, tuple(NOTIF), None))
     # what is raised: exceptions without text, with multi-line / non-ASCII / format-like text, failed
     # asserts and exceptions whose text cannot even be produced - for every event alone and all at once
+    # (default schedule in both tiers: what is raised does not interact with the schedule; with <= 1
+    # deviation the thorough tier would need six times its hour)
+    flav_items = []
     flav_pairs = [("echo-release", "none"), ("release", "release"), ("echo-abort", "abort")] if ctx.quick else pairs
     for rq, ac in flav_pairs:
         for fl in FLAVOURS:
             for ev in NOTIF:
-                items.append((rq, ac, (ev,), fl))
-            items.append((rq, ac, tuple(NOTIF), fl))
+                flav_items.append((rq, ac, (ev,), fl))
+            flav_items.append((rq, ac, tuple(NOTIF), fl))
     # D=1 exploration with everything raising on a subset (quick) / all (thorough)
     deep_pairs = [("release", "none"), ("echo-release", "none"), ("abort", "none"), ("release", "release"), ("echo-abort", "abort")] if ctx.quick else pairs
     n = core.NPROC * 4
     parts = [items[i::n] for i in range(n)]
     res = core.pmap(_work, [(p, D) for p in parts if p], seed=ctx.seed)
+    res += core.pmap(_work, [(p, 0) for p in [flav_items[i::n] for i in range(n)] if p], seed=ctx.seed)
+    items = items + flav_items
     deep = [(rq, ac, tuple(NOTIF), None) for rq, ac in deep_pairs]
     parts2 = [deep[i::n] for i in range(n)]
     res += core.pmap(_work, [(p, 1) for p in parts2 if p], seed=ctx.seed)
